@@ -58,8 +58,10 @@ def gen_case(rng, i):
     def rows(n):
         return [({rng.choice(vs): rng.choice([1, -1])}, rng.choice([-2, -1, 0, 1, 2])) for _ in range(n)]
 
-    alg = ["refines", "refines", "reduce", "is_empty"][i % 4]
+    alg = ["refines", "refines", "reduce", "is_empty", "optimize"][i % 5]
     L = rows(rng.randint(0 if alg != "reduce" else 1, 2))
+    if alg == "optimize":
+        return {"alg": alg, "L": L, "R": [({rng.choice(vs): rng.choice([1, -1])}, 0)]}
     if alg == "refines" and i % 8 < 2 and L:
         R = [rng.choice(L) for _ in range(rng.randint(1, 2))]      # sub-list / reflexive
     else:
@@ -81,6 +83,12 @@ def run_case(case):
                 ans = "true" if L.refines(Rr) else "false"
             elif case["alg"] == "is_empty":
                 ans = "true" if L.is_empty() else "false"
+            elif case["alg"] == "optimize":
+                from pacti.iocontract import Var
+
+                (v, a), = case["R"][0][0].items()
+                out = L.optimize({Var(v): a}, maximize=True)
+                ans = "none" if out is None else "value"
             else:
                 out = L.simplify(Rr)
                 ans = "returned"
@@ -98,6 +106,8 @@ def run_case(case):
     if case["alg"] == "reduce":
         order = list(dict.fromkeys([v for co, _ in Lm + case["R"] for v in co]))
     elif case["alg"] == "refines":
+        order = list(dict.fromkeys([v for co, _ in case["L"] + case["R"] for v in co]))
+    elif case["alg"] == "optimize":
         order = list(dict.fromkeys([v for co, _ in case["L"] + case["R"] for v in co]))
     else:
         order = list(dict.fromkeys([v for co, _ in case["L"] for v in co]))
